@@ -5,9 +5,12 @@ package expand
 
 import (
 	"fmt"
+	"maps"
+	"slices"
 	"strconv"
 	"strings"
 
+	"mvdan.cc/sh/v3/internal"
 	"mvdan.cc/sh/v3/syntax"
 )
 
@@ -40,24 +43,37 @@ func Arithm(cfg *Config, expr syntax.ArithmExpr) (int, error) {
 	case *syntax.UnaryArithm:
 		switch expr.Op {
 		case syntax.Inc, syntax.Dec:
-			if w, ok := expr.X.(*syntax.Word); !ok || w.Lit() == "" {
-				// TODO: support array elements, like a[0]++
+			elem := arithmElem(expr.X)
+			if w, ok := expr.X.(*syntax.Word); !ok || (w.Lit() == "" && elem == nil) {
 				return 0, fmt.Errorf("unsupported operand for arithmetic operator %q", expr.Op)
 			}
 			name := expr.X.(*syntax.Word).Lit()
-			if !expr.Post && !syntax.ValidName(name) {
+			if elem == nil && !expr.Post && !syntax.ValidName(name) {
 				// Like bash, "++" and "--" in front of something that is
 				// not a variable name, as in "++1", are two signs.
 				return Arithm(cfg, expr.X)
 			}
-			old := atoi(cfg.envGet(name))
+			var old int64
+			if elem != nil {
+				n, err := Arithm(cfg, expr.X)
+				if err != nil {
+					return 0, err
+				}
+				old = int64(n)
+			} else {
+				old = atoi(cfg.envGet(name))
+			}
 			val := old
 			if expr.Op == syntax.Inc {
 				val++
 			} else {
 				val--
 			}
-			if err := cfg.envSet(name, strconv.FormatInt(val, 10)); err != nil {
+			if elem != nil {
+				if err := cfg.arithmElemSet(elem, strconv.FormatInt(val, 10)); err != nil {
+					return 0, err
+				}
+			} else if err := cfg.envSet(name, strconv.FormatInt(val, 10)); err != nil {
 				return 0, err
 			}
 			if expr.Post {
@@ -216,12 +232,21 @@ func atoiLargeBase(s string, base int64) int64 {
 }
 
 func (cfg *Config) assgnArit(b *syntax.BinaryArithm) (int, error) {
-	if w, ok := b.X.(*syntax.Word); !ok || w.Lit() == "" {
-		// TODO: support array elements, like a[0]=1
+	elem := arithmElem(b.X)
+	if w, ok := b.X.(*syntax.Word); !ok || (w.Lit() == "" && elem == nil) {
 		return 0, fmt.Errorf("unsupported operand for arithmetic operator %q", b.Op)
 	}
 	name := b.X.(*syntax.Word).Lit()
-	val := atoi(cfg.envGet(name))
+	var val int64
+	if elem == nil {
+		val = atoi(cfg.envGet(name))
+	} else if b.Op != syntax.Assgn {
+		n, err := Arithm(cfg, b.X)
+		if err != nil {
+			return 0, err
+		}
+		val = int64(n)
+	}
 	arg_, err := Arithm(cfg, b.Y)
 	if err != nil {
 		return 0, err
@@ -257,10 +282,89 @@ func (cfg *Config) assgnArit(b *syntax.BinaryArithm) (int, error) {
 	case syntax.ShrAssgn:
 		val >>= uint(arg)
 	}
+	if elem != nil {
+		if err := cfg.arithmElemSet(elem, strconv.FormatInt(val, 10)); err != nil {
+			return 0, err
+		}
+		return int(val), nil
+	}
 	if err := cfg.envSet(name, strconv.FormatInt(val, 10)); err != nil {
 		return 0, err
 	}
 	return int(val), nil
+}
+
+// arithmElem returns the parameter expansion for an array element written
+// as name[subscript] in an arithmetic expression, or nil for anything else.
+func arithmElem(expr syntax.ArithmExpr) *syntax.ParamExp {
+	w, ok := expr.(*syntax.Word)
+	if !ok || len(w.Parts) != 1 {
+		return nil
+	}
+	pe, ok := w.Parts[0].(*syntax.ParamExp)
+	if !ok || !pe.Short || pe.Dollar.IsValid() || pe.Param == nil || pe.Index == nil {
+		return nil
+	}
+	switch nodeLit(pe.Index) {
+	case "@", "*":
+		return nil
+	}
+	return pe
+}
+
+// arithmElemSet assigns to the array element named by pe.
+func (cfg *Config) arithmElemSet(pe *syntax.ParamExp, value string) error {
+	wenv, ok := cfg.Env.(WriteEnviron)
+	if !ok {
+		return fmt.Errorf("environment is read-only")
+	}
+	name := pe.Param.Value
+	vr := cfg.Env.Get(name)
+	if n, v := vr.Resolve(cfg.Env); n != "" {
+		name, vr = n, v
+	}
+	if vr.Kind == Associative {
+		word, ok := pe.Index.(*syntax.Word)
+		if !ok {
+			return fmt.Errorf("unsupported subscript for an associative array")
+		}
+		key, err := literal(cfg, word, false)
+		if err != nil {
+			return err
+		}
+		// The map may be shared with a parent or child shell.
+		m := maps.Clone(vr.Map)
+		if m == nil {
+			m = make(map[string]string)
+		}
+		m[key] = value
+		vr.Map = m
+		return wenv.Set(name, vr)
+	}
+	k, err := Arithm(cfg, pe.Index)
+	if err != nil {
+		return err
+	}
+	var list []string
+	var indexes []int
+	switch vr.Kind {
+	case Indexed:
+		// The list may be shared with a parent or child shell.
+		list, indexes = slices.Clone(vr.List), slices.Clone(vr.Indexes)
+	case String:
+		if vr.Set {
+			list = []string{vr.Str}
+		}
+	}
+	if k < 0 {
+		// Negative indices count from one past the maximum index.
+		if k += internal.IndexedMax(list, indexes) + 1; k < 0 {
+			return fmt.Errorf("negative array index")
+		}
+	}
+	list, indexes = internal.SetIndexedElem(list, indexes, k, value)
+	vr.Set, vr.Kind, vr.Str, vr.List, vr.Indexes = true, Indexed, "", list, indexes
+	return wenv.Set(name, vr)
 }
 
 func intPow(a, b int) int {
